@@ -39,12 +39,12 @@ impl Lane for crate::sym::Sym {
     /// a fresh free symbol: every generated operand entry is a distinct variable
     fn gen(_rng: &mut StdRng) -> Self { crate::sym::Sym::fresh("x") }
 }
-/// Shape descriptor of a logged value that contains polynomials of the symbolic lane ({"p": ..} objects):
+/// Shape descriptor of a logged value that contains polynomials of the symbolic lane ({"ply": ..} objects):
 /// {"t":"P"} a polynomial, {"t":"L","e":[..]} a list with one descriptor per element, {"t":"R","f":{..}} an object
 /// (fields without polynomials are left out), {"t":"K"} anything else (kept as it is).  None: no polynomial inside.
 fn poly_shape(v: &Value) -> Option<Value> {
     match v {
-        Value::Object(m) if m.contains_key("p") => Some(json!({"t": "P"})),
+        Value::Object(m) if m.contains_key("ply") => Some(json!({"t": "P"})),
         Value::Object(m) => {
             let mut f = Map::new();
             for (k, x) in m.iter() { if let Some(d) = poly_shape(x) { f.insert(k.clone(), d); } }
